@@ -199,12 +199,24 @@ def build_driver(prop):
 
 
 def obligations(prop):
-    """names of the theorems that must exist, compile and be axiom-clean for `prop`"""
-    try:
-        with open(os.path.join(LEAN, "obligations", prop + ".json")) as f:
-            return json.load(f)
-    except OSError:
-        return []
+    """names of the theorems that must exist, compile and be axiom-clean for `prop`:
+    lean/obligations/<prop>.json plus, when present, lean/obligations/<prop>x.json (cross-model
+    composition theorems kept in CppUModel/Props/<prop>x.lean)"""
+    out = []
+    for name in (prop, prop + "x"):
+        try:
+            with open(os.path.join(LEAN, "obligations", name + ".json")) as f:
+                out += json.load(f)
+        except OSError:
+            pass
+    return out
+
+
+def props_modules(prop, module=None):
+    mods = [module or ("CppUModel.Props." + prop)]
+    if os.path.exists(os.path.join(LEAN, "CppUModel", "Props", prop + "x.lean")):
+        mods.append("CppUModel.Props." + prop + "x")
+    return mods
 
 
 def grep_forbidden():
@@ -231,17 +243,17 @@ def audit(prop, module=None):
     """check every obligation of `prop`: the theorem exists, compiles, and depends on allowed axioms only.
     returns dict name -> (ok, detail), plus build output"""
     obs = obligations(prop)
-    module = module or ("CppUModel.Props." + prop)
-    ok, out = lake_build([module])
+    mods = props_modules(prop, module)
+    ok, out = lake_build(mods)
     result = {}
     if not ok:
-        # find which obligations are still fine is not possible when the module fails: all are undischarged,
-        # but name the failing declarations for the replay file
+        # when a module fails none of its theorems is re-checked: all are undischarged,
+        # the failing declarations are named for the replay file
         failing = sorted(set(re.findall(r"error: ([^\s:]+\.lean:\d+:\d+)", out)))
         for o in obs:
-            result[o] = (False, "module %s does not build (errors at %s)" % (module, ", ".join(failing[:5]) or "?"))
+            result[o] = (False, "module %s does not build (errors at %s)" % (" / ".join(mods), ", ".join(failing[:5]) or "?"))
         return result, out
-    lines = ["import %s" % module] + ["#print axioms %s" % o for o in obs]
+    lines = ["import %s" % m for m in mods] + ["#print axioms %s" % o for o in obs]
     with tempfile.NamedTemporaryFile("w", suffix=".lean", dir=LEAN, delete=False) as f:
         f.write("\n".join(lines) + "\n")
         tmp = f.name
